@@ -362,6 +362,34 @@ bool full_check(vh::Case& c, const ST& st, const ComplexModel& M, const std::vec
   return true;
 }
 
+// Operations that the library itself documents / implements as dropping the filtration cache; after any other
+// modification the caller has to call clear_filtration() or initialize_filtration() (documented requirement).
+inline bool op_drops_filtration_cache(OpKind k) { return k == PRUNE_F || k == PRUNE_D || k == CLEAR || k == NOP; }
+
+// filtration_simplex_range() must list every simplex of the model exactly once, never decrease in value and put faces first.
+// The size is compared first so that a stale cache (dangling handles) is reported without being dereferenced.
+template <class ST>
+bool check_filtration_range(vh::Case& c, const ST& st, const ComplexModel& M, const std::string& sig, const std::string& pfx = "") {
+  if constexpr (ST::Options::store_filtration) {
+    const auto& rg = st.filtration_simplex_range();
+    size_t n = (size_t)std::distance(rg.begin(), rg.end());
+    c.count("cmp.filtration_range");
+    if (n != M.cx.size()) { c.violation(pfx + "filtration_range.size", sig + (n > M.cx.size() ? ",too_many" : ",too_few"), "filtration_simplex_range lists " + vh::str(n) + " simplices, complex has " + vh::str(M.cx.size())); return false; }
+    std::map<Simplex, size_t> pos; size_t i = 0; double prev = -std::numeric_limits<double>::infinity();
+    for (auto sh : rg) {
+      Simplex w = word(st, sh);
+      if (!M.has(w)) { c.violation(pfx + "filtration_range.foreign", sig, "lists " + oracle::show(w) + " which is not in the complex"); return false; }
+      if (!pos.emplace(w, i).second) { c.violation(pfx + "filtration_range.duplicate", sig, "lists " + oracle::show(w) + " twice"); return false; }
+      double f = M.cx.at(w);
+      if (f < prev) { c.violation(pfx + "filtration_range.decreasing", sig, "value decreases at position " + vh::str(i)); return false; }
+      prev = f;
+      for (auto& fc : ComplexModel::facets(w)) if (!pos.count(fc)) { c.violation(pfx + "filtration_range.face_after_coface", sig, oracle::show(fc) + " not listed before " + oracle::show(w)); return false; }
+      ++i;
+    }
+  }
+  return true;
+}
+
 // Builds a tree equal to the model by a fixed route (dimension by dimension with insert_simplex).
 template <class ST>
 void build_from_model(ST& st, const ComplexModel& M) {
